@@ -869,7 +869,7 @@ Definition param_call_body (params : list let_value) (n : named_clause) : M stat
           else
             resolved <- mapM (fun each =>
                           match each with
-                          | LValue v => ret [QResolved v]
+                          | LValue v => ret [QLiteral v]   (* fix 472c229 in /repo: a literal argument is a Literal, as a literal `let` *)
                           | LAccess a => ctx_query (aq_query a)
                           | LFunction ps fname => ev_fn r fname ps
                           end) params ;;
